@@ -32,6 +32,8 @@ pub enum AnchorMode {
     Force,
     /// production's draw goes through and is recorded
     Observe,
+    /// the harness supplies this position (coverage loops)
+    Fixed(usize),
 }
 
 pub struct Harness {
@@ -186,7 +188,12 @@ fn anchor_hook(len: usize, drawn: usize) -> usize {
     let pos = match mode {
         AnchorMode::Off => return drawn,
         AnchorMode::Force => 1 + kernel::choose(len - 1, "anchor"),
-        AnchorMode::Observe => drawn,
+        AnchorMode::Observe => {
+            // record-and-replay of an uncontrolled source: the draw goes on the tape as an observed input
+            // (replay forces the recorded value)
+            1 + kernel::observe(drawn.saturating_sub(1), len.max(2) - 1 + 1, "obs:anchor")
+        }
+        AnchorMode::Fixed(p) => p,
     };
     harness(|h| h.anchors.push((len, pos)));
     pos
